@@ -1,0 +1,14 @@
+// +build verif
+
+package raft
+
+import "math/rand"
+
+// VerifSeedGlobalRand reseeds the process-wide source of election-timeout
+// jitter (seeded from the wall clock by default) so that a simulated run is a
+// function of its seed. Only compiled with the verif build tag.
+func VerifSeedGlobalRand(seed int64) {
+	globalRand.mu.Lock()
+	globalRand.rand = rand.New(rand.NewSource(seed))
+	globalRand.mu.Unlock()
+}
